@@ -22,7 +22,6 @@ VARIABLES args, script, kind, eh, ncalls, trip, ret
 
 uvars == <<heap, phase, nedits, nops, h, args, script, kind, eh, ncalls, trip, ret>>
 
-Modules(H) == {i \in Reachable(H) : IsGraph(H[i])}
 
 \* navigation by slot numbers from an argument; 0 if the path does not resolve to an object
 RECURSIVE Nav(_, _, _)
